@@ -74,6 +74,14 @@ def impl(case):
             return {"err": C.exc_enum(e), "msg": str(e)[:200]}
         res = {"mask": ["".join("1" if v else "0" for v in row) for row in out.tolist()], "ceil": log,
                "verts": (pol._vertices + np.array([pol._shiftx, pol._shifty])).tolist()}
+        # the same Polygon object filled again (fresh array; then a taller and wider one): a fill depends on polygon and image only
+        try:
+            again = pol.scan(np.zeros((ny, nx), dtype=int))
+            res["rescan"] = ["".join("1" if v else "0" for v in row) for row in again.tolist()]
+            wide = pol.scan(np.zeros((ny + 3, nx + 2), dtype=int))
+            res["rescan_wide"] = ["".join("1" if v else "0" for v in row) for row in wide[:ny, :nx].tolist()]
+        except Exception as e:
+            res["rescan_err"] = C.exc_enum(e)
         # metamorphic: larger canvas translated so that everything is non-negative
         pad = case.get("pad", [3, 2, 4, 1])  # left, bottom, right, top
         try:
@@ -206,6 +214,12 @@ def _oracle_scan(verts, ny, nx, res):
                     out.append(("hug", "pixel (%d,%d) is marked but lies more than one pixel to the right of the closed polygon (or left of it)" % (c, r)))
         if len(out) > 3:
             break
+    if "rescan_err" in res:
+        out.append(("rescan", "filling the same Polygon object a second time raised %s" % res["rescan_err"]))
+    for k_ in ("rescan", "rescan_wide"):
+        if k_ in res and res[k_] != mask:
+            out.append(("rescan", "the same Polygon object filled a second time (%s) gives a different mask: %d pixels marked, first fill %d" %
+                        ("same image shape" if k_ == "rescan" else "larger image, cropped", sum(r.count("1") for r in res[k_]), sum(r.count("1") for r in mask))))
     if "crop" in res and res["crop"] != mask:
         out.append(("crop", "mask differs from the crop of the fill of the translated polygon on a larger canvas"))
     return out
